@@ -53,6 +53,42 @@ theorem C08_target_roundtrip (c : Cfg) (r : Req) (p : Bytes) (q : Option Bytes)
   rw [ht, director_url, hm]
   exact hreq
 
+/-- **C08, request target in absolute-form** (`GET http://other/p?q HTTP/1.1`, RFC 7230 §5.3.2). For every valid
+scheme, every simple authority (reg-name with optional port), every valid path or the empty path, and every
+query: the request line sent to the backend is the target's path (`/` if it is empty) and query, byte for
+byte — the target's scheme and authority select nothing (the backend stays the caller's: `C08_host`), and
+the Go server uses the authority as `req.Host` (`serverHost`). -/
+theorem C08_target_roundtrip_absolute (c : Cfg) (r : Req) (s a p : Bytes) (q : Option Bytes)
+    (hs : validScheme s = true) (ha : simpleAuthority a = true) (hp : p = [] ∨ validPath p = true)
+    (hq : ∀ q', q = some q' → validQuery q' = true)
+    (hr : r.requestURI = absTarget s a p q) (w : Wire) (hw : serve c r = some w) :
+    w.target = target (if p = [] then ['/'] else p) q ∧ w.backend = (r.url.scheme, r.url.host) ∧
+    ∃ u, parseRequestURI r.requestURI = some u ∧
+      ∀ hostHeader, serverHost u hostHeader = if a ≠ [] then String.ofList a else hostHeader := by
+  obtain ⟨ht, -, -, hb, -⟩ := serve_some hw
+  obtain ⟨u, hu, hh, hreq⟩ := requestURI_parse_abs r.url s a p q hs ha hp hq
+  have hne : r.requestURI ≠ [] := by
+    rw [hr]
+    cases s with
+    | nil => simp [validScheme] at hs
+    | cons x xs => simp [absTarget]
+  have hpu : parseRequestURI r.requestURI = some u := by rw [hr]; exact hu
+  have hm : (modifyRequest r).url =
+      { r.url with path := u.path, rawPath := u.rawPath, rawQuery := u.rawQuery, forceQuery := u.forceQuery } := by
+    simp only [modifyRequest, hne, ne_eq, not_false_eq_true, if_true, hpu, Option.getD_some]
+  refine ⟨by rw [ht, director_url, hm]; exact hreq, ?_, u, hpu, ?_⟩
+  · rw [hb, director_url, hm]
+  · intro hostHeader
+    simp only [serverHost, hh]
+    by_cases hae : a = []
+    · subst hae; simp
+    · have : String.ofList a ≠ "" := by
+        intro e
+        have := congrArg String.toList e
+        simp only [String.toList_ofList] at this
+        exact hae (by simpa using this)
+      simp [hae, this]
+
 /-! ## protocol, backend, Host -/
 
 /-- **C08, HTTP/1.1 to the caller's backend, Host rule.** -/
@@ -323,6 +359,14 @@ example : (serve sampleCfg sampleReq).map (fun w =>
       [vals w.header "X-Test", vals w.header XRealIP, vals w.header XForwardedProto,
        vals w.header XForwardedPort, vals w.header XForwardedHost, vals w.header XForwardedFor])
     = some [["hello", "again"], ["fe80::1"], ["https"], ["8080"], ["example.com:8080"], ["1.1.1.1, fe80::1%eth0"]] := by
+  decide +kernel
+/-- an absolute-form witness: `GET HTTP://Other.Example:8080/p%2Fq;x?a=1;b=2&c= HTTP/1.1` -/
+example : validScheme "HTTP".toList = true ∧ simpleAuthority "Other.Example:8080".toList = true ∧
+    validPath "/p%2Fq;x".toList = true ∧ validQuery "a=1;b=2&c=".toList = true := by decide +kernel
+example : (serve sampleCfg { sampleReq with requestURI := "HTTP://Other.Example:8080/p%2Fq;x?a=1;b=2&c=".toList }).map
+      (fun w => (w.target, w.backend)) = some ("/p%2Fq;x?a=1;b=2&c=".toList, ("http", "10.0.0.7:9000")) := by
+  decide +kernel
+example : (serve sampleCfg { sampleReq with requestURI := "http://other?".toList }).map (·.target) = some "/?".toList := by
   decide +kernel
 example : "X-Foo" ∈ named sampleReq.header ∧ "X-Foo" ∉ XHeaders ∧ "X-Real-Ip" ∈ named sampleReq.header := by
   decide +kernel
